@@ -7,6 +7,9 @@
 #include <signal.h>
 #include <stdarg.h>
 #include <unistd.h>
+#include <sys/stat.h>
+#include <sys/syscall.h>
+#include <fcntl.h>
 
 vp_cfg_t vp_cfg;
 _Atomic uint64_t vp_progress_ctr;
@@ -63,6 +66,7 @@ static const char* const point_names[FV_POINT_MAX] = {
     [FV_JOIN_CLAIMED] = "JOIN_CLAIMED",
     [FV_COMPLETION_CLAIMED] = "COMPLETION_CLAIMED",
     [FV_MUTEX_UNLOCK_MID] = "MUTEX_UNLOCK_MID",
+    [FV_TIMER_READ] = "TIMER_READ",
 };
 
 #define VP_NPOINTS 128  // library points < FV_POINT_MAX, harness-private points 100..127
@@ -146,11 +150,13 @@ static _Atomic int g_next_tid;
 static __thread int t_tid = -1;
 static pthread_t g_pthreads[VP_MAX_THREADS];
 static _Atomic int g_pthread_known[VP_MAX_THREADS];
+static _Atomic long g_linux_tid[VP_MAX_THREADS];
 __attribute__((noinline)) int vp_tid(void) {
   if (t_tid < 0) {
     t_tid = atomic_fetch_add(&g_next_tid, 1);
     if (t_tid < VP_MAX_THREADS) {
       g_pthreads[t_tid] = pthread_self();
+      atomic_store(&g_linux_tid[t_tid], (long)syscall(SYS_gettid));
       atomic_store(&g_pthread_known[t_tid], 1);
     }
     if (t_tid >= VP_MAX_THREADS) {
@@ -563,6 +569,67 @@ static int g_runtime_mode;
 
 void vp_mark_done(void) { atomic_store(&g_done, 1); }
 
+// A kernel thread of the runtime that sleeps inside a data-transfer system call on a socket or pipe blocks every fiber it
+// carries: the shims must keep descriptors non-blocking and park only the calling fiber. /proc/<tid>/syscall shows numbers only
+// for a task that is *sleeping* in a system call ("running" otherwise). Verdict only after three consecutive looks (>= 20 ms)
+// that find the same thread in the same call on the same descriptor with the same stack pointer and without a single hook hit
+// in between - a contended socket lock sleeps for microseconds, a call on a really blocking descriptor for as long as the peer likes.
+static void check_blocked_kernel_threads(void) {
+  static long last_nr[VP_MAX_THREADS], last_fd[VP_MAX_THREADS], last_hits[VP_MAX_THREADS], streak[VP_MAX_THREADS];
+  static unsigned long long last_sp[VP_MAX_THREADS];
+  static int reported;
+  const int n = atomic_load(&g_next_tid);
+  int i, p;
+  if (reported) return;
+  for (i = 0; i < n && i < VP_MAX_THREADS; ++i) {
+    const long lt = atomic_load(&g_linux_tid[i]);
+    if (!lt || __atomic_load_n(&g_thr[i].hits[FV_SWITCH_POST], __ATOMIC_RELAXED) + __atomic_load_n(&g_thr[i].hits[FV_IDLE], __ATOMIC_RELAXED) == 0) continue;  // not a kernel thread of the fiber runtime
+    long hits = 0;
+    for (p = 0; p < VP_NPOINTS; ++p) hits += __atomic_load_n(&g_thr[i].hits[p], __ATOMIC_RELAXED);
+    char path[64], buf[256];
+    snprintf(path, sizeof(path), "/proc/self/task/%ld/syscall", lt);
+    // raw system calls: the library under test interposes open/read/close and this is not one of its threads
+    const int f = (int)syscall(SYS_openat, AT_FDCWD, path, O_RDONLY | O_CLOEXEC);
+    if (f < 0) continue;
+    const ssize_t r = (ssize_t)syscall(SYS_read, f, buf, sizeof(buf) - 1);
+    syscall(SYS_close, f);
+    if (r <= 0) continue;
+    buf[r] = 0;
+    long nr = -1;
+    unsigned long long a[6] = {0}, sp = 0, pc = 0;
+    const int got = sscanf(buf, "%ld %llx %llx %llx %llx %llx %llx %llx %llx", &nr, &a[0], &a[1], &a[2], &a[3], &a[4], &a[5], &sp, &pc);
+    int io = 0;
+    if (got >= 8) {
+      switch (nr) {
+        case SYS_read: case SYS_write: case SYS_readv: case SYS_writev: case SYS_sendto: case SYS_recvfrom: case SYS_sendmsg: case SYS_recvmsg:
+        case SYS_accept: case SYS_accept4: case SYS_connect: case SYS_sendmmsg: case SYS_recvmmsg: case SYS_sendfile:
+          io = 1;
+          break;
+        default:
+          break;
+      }
+    }
+    struct stat st;
+    if (io && ((long)a[0] <= 2 || fstat((int)a[0], &st) || !(S_ISSOCK(st.st_mode) || S_ISFIFO(st.st_mode)))) io = 0;
+    if (io && streak[i] > 0 && last_nr[i] == nr && last_fd[i] == (long)a[0] && last_sp[i] == sp && last_hits[i] == hits) {
+      if (++streak[i] >= 3) {
+        vp_violation("C08", "io:kernel-thread-blocked",
+                     "kernel thread %d of the runtime has been sleeping inside system call %ld on descriptor %ld (a %s) for three consecutive looks without running any fiber: "
+                     "the call blocked the whole thread instead of only the calling fiber",
+                     i, nr, (long)a[0], S_ISSOCK(st.st_mode) ? "socket" : "pipe");
+        reported = 1;
+        streak[i] = 0;
+      }
+    } else {
+      streak[i] = io ? 1 : 0;
+    }
+    last_nr[i] = nr;
+    last_fd[i] = (long)a[0];
+    last_sp[i] = sp;
+    last_hits[i] = hits;
+  }
+}
+
 static void* wd_main(void* arg) {
   (void)arg;
   const uint64_t start = vp_now_ns();
@@ -576,10 +643,12 @@ static void* wd_main(void* arg) {
   int viol_linger = 0;
   const long relax_limit = vp_param("relax_limit", 4000000000L);
   int q_streak = 0, iq_streak = 0;
+  unsigned wd_round = 0;
   for (;;) {
     vp_real_sleep_us(5000);
     if (atomic_load(&g_done) || atomic_load(&g_finishing)) return NULL;
     if (g_periodic) g_periodic();
+    if (g_runtime_mode && vp_cfg.mode != VP_MODE_NOHOOK && (++wd_round & 1) == 0) check_blocked_kernel_threads();
     // once a violation is on record the verdict is decided; give the harness a moment to end normally, then stop
     // (this only bounds how long a wedged process lingers, it never creates or changes a verdict)
     if (vp_violation_count() > 0 && ++viol_linger > 600) vp_finish();
